@@ -117,50 +117,100 @@ def _ground_index_terms(exprs, limit=60):
     return {k: v[:limit] for k, v in by_sort.items()}
 
 
-def instantiate(hyps, goals, rounds=2, cap=400):
-    """Replace top-level universally quantified hypotheses by ground instances at the index terms that occur
-    in the query. Sound for `unsat` (hypotheses only get weaker)."""
-    flat = []
-    for h in hyps:
-        flatten_and(h, flat)
-    plain = [h for h in flat if not (z3.is_quantifier(h) and h.is_forall())]
-    quants = [h for h in flat if z3.is_quantifier(h) and h.is_forall()]
-    if not quants:
-        return plain, []
-    insts = []
-    done = set()
+def _is_bool_connective(e):
+    return z3.is_and(e) or z3.is_or(e) or z3.is_not(e) or z3.is_implies(e)
+
+
+def skolemize(e, pos=True):
+    """Replace quantifiers of existential force (positive Exists, negative ForAll) by fresh constants.
+    Equisatisfiable for assertions; leaves universal-force quantifiers in place."""
+    if z3.is_quantifier(e):
+        if e.is_lambda():
+            return e
+        existential_force = (e.is_exists() and pos) or (e.is_forall() and not pos)
+        if existential_force:
+            n = e.num_vars()
+            consts = [z3.Const(T.fresh_name("sk_" + e.var_name(i)), e.var_sort(i)) for i in range(n)]
+            body = z3.substitute_vars(e.body(), *reversed(consts))
+            return skolemize(body, pos)
+        # universal force: skolemize inside the body only where it is safe (no dependence on bound vars)
+        return e
+    if z3.is_and(e):
+        return z3.And(*[skolemize(c, pos) for c in e.children()])
+    if z3.is_or(e):
+        return z3.Or(*[skolemize(c, pos) for c in e.children()])
+    if z3.is_not(e):
+        return z3.Not(skolemize(e.children()[0], not pos))
+    if z3.is_implies(e):
+        a, b = e.children()
+        return z3.Implies(skolemize(a, not pos), skolemize(b, pos))
+    return e
+
+
+def _has_quant(e, seen=None):
+    stack = [e]
+    seen = set()
+    while stack:
+        x = stack.pop()
+        if x.get_id() in seen:
+            continue
+        seen.add(x.get_id())
+        if z3.is_quantifier(x):
+            return True
+        stack.extend(x.children())
+    return False
+
+
+def expand_universals(e, cands, pos=True, cap=200):
+    """Replace universal-force quantifiers by the conjunction (disjunction under negation) of their ground
+    instances at the candidate terms. Only weakens an assertion -> sound for `unsat`."""
+    if z3.is_quantifier(e):
+        if e.is_lambda():
+            return e
+        universal_force = (e.is_forall() and pos) or (e.is_exists() and not pos)
+        if not universal_force:
+            return e
+        n = e.num_vars()
+        pools = [cands.get(e.var_sort(i).name(), []) for i in range(n)]
+        if any(not p for p in pools):
+            return z3.BoolVal(True) if pos else z3.BoolVal(False)
+        combos = [[]]
+        for p in pools:
+            combos = [c + [t] for c in combos for t in p]
+            if len(combos) > cap:
+                combos = combos[:cap]
+        insts = []
+        for combo in combos:
+            body = z3.substitute_vars(e.body(), *reversed(combo))
+            insts.append(expand_universals(body, cands, pos, cap))
+        if pos:
+            return z3.And(*insts) if insts else z3.BoolVal(True)
+        return z3.Or(*insts) if insts else z3.BoolVal(False)
+    if not _has_quant(e):
+        return e
+    if z3.is_and(e):
+        return z3.And(*[expand_universals(c, cands, pos, cap) for c in e.children()])
+    if z3.is_or(e):
+        return z3.Or(*[expand_universals(c, cands, pos, cap) for c in e.children()])
+    if z3.is_not(e):
+        return z3.Not(expand_universals(e.children()[0], cands, not pos, cap))
+    if z3.is_implies(e):
+        a, b2 = e.children()
+        return z3.Implies(expand_universals(a, cands, not pos, cap), expand_universals(b2, cands, pos, cap))
+    return e      # quantifier under ite / iff: left to the solver
+
+
+def instantiate(assertions, rounds=2):
+    """assertions (hypotheses + negated goal) -> (instantiated assertions, skolemised-only assertions, had_quant)"""
+    sk = [skolemize(a, True) for a in assertions]
+    if not any(_has_quant(a) for a in sk):
+        return sk, None
+    cur = sk
+    out = sk
     for _ in range(rounds):
-        cands = _ground_index_terms(plain + insts + list(goals))
-        new = []
-        for q in quants:
-            n = q.num_vars()
-            pools = []
-            for i in range(n):
-                pools.append(cands.get(q.var_sort(i).name(), []))
-            if any(not p for p in pools):
-                continue
-            combos = [[]]
-            for p in pools:
-                combos = [c + [t] for c in combos for t in p]
-                if len(combos) > cap:
-                    combos = combos[:cap]
-            for combo in combos:
-                key = (q.get_id(), tuple(t.get_id() for t in combo))
-                if key in done:
-                    continue
-                done.add(key)
-                body = z3.substitute_vars(q.body(), *reversed(combo))
-                sub = []
-                flatten_and(body, sub)
-                for sb in sub:
-                    if z3.is_quantifier(sb) and sb.is_forall():
-                        quants.append(sb)
-                    else:
-                        new.append(sb)
-        insts += new
-        if not new:
-            break
-    return plain + insts, quants
+        cands = _ground_index_terms(out if out is not sk else [a for a in sk])
+        out = [expand_universals(a, cands, True) for a in sk]
+    return out, sk
 
 
 # ---- solving --------------------------------------------------------------------------
@@ -176,10 +226,18 @@ def _to_smt2(assertions, probes=None):
 
 
 def _worker(task):
-    oid, text_inst, text_full, timeout_ms, use_cvc5 = task
+    oid, text_raw, _unused, timeout_ms, use_cvc5 = task
     t0 = time.time()
     res = {"id": oid, "status": "unknown", "backend": "z3", "model": None, "reason": ""}
     try:
+        s0 = z3.Solver()
+        s0.from_string(text_raw)
+        flat = []
+        for a in s0.assertions():
+            flatten_and(a, flat)
+        inst, full = instantiate(flat)
+        text_inst = _to_smt2(inst)
+        text_full = _to_smt2(full) if full is not None else None
         s = z3.Solver()
         s.set("timeout", timeout_ms)
         s.from_string(text_inst)
@@ -267,11 +325,8 @@ def prepare(obl, axioms=()):
         if z3.is_true(z3.simplify(g)):
             tasks.append((f"{obl.id}#{k}", None, None))
             continue
-        inst_hyps, quants = instantiate(hyps, [g])
-        neg = z3.Not(g)
-        text_inst = _to_smt2(inst_hyps + [neg], obl.probes)
-        text_full = _to_smt2(inst_hyps + quants + [neg], obl.probes) if quants else None
-        tasks.append((f"{obl.id}#{k}", text_inst, text_full))
+        text_raw = _to_smt2(hyps + [z3.Not(g)], obl.probes)
+        tasks.append((f"{obl.id}#{k}", text_raw, None))
     return tasks
 
 
